@@ -328,9 +328,12 @@ func c04SingleRun(rep *kit.Report, idx int, seed uint64, sealMu *sync.Mutex, sea
 					if m.Policy == client.AckPolicy_NONE {
 						m.Policy = client.AckPolicy_LEADER // NONE is refused by the API for OCC streams
 					}
-					switch pr.Intn(4) {
+					switch pr.Intn(5) {
 					case 0:
 						m.Expect = -1
+					case 4:
+						// wrong in another way: negative, but not the -1 that waives the check
+						m.Expect = []int64{-2, -3, -100, -1 << 31, -1 << 63}[pr.Intn(5)]
 					case 1:
 						m.Expect = part.log.NewestOffset() + 1 // may or may not still be right
 					case 2:
